@@ -66,4 +66,26 @@ theorem filter_group_eq {A A' : Kvs} {p0 : List Char}
     rw [hany]
   rw [e1, hd0, e3, ← e2]
 
+/-- a batch of new annotations, all under the prefix `p0` and marking it (the `kopf-managed` marker is
+    among them), appended to annotations that have nothing under `p0`. -/
+theorem group_of_append {A new : Kvs} {p0 : List Char}
+    (hA : ∀ k, k ∈ keys A → pfx k ≠ some p0) (hnew : ∀ k, k ∈ keys new → pfx k = some p0)
+    (hmark : p0 ∈ markedPrefixes (keys new)) :
+    AgreeOffPrefix p0 (A ++ new) A ∧ GroupDropped p0 A ∧ GroupDropped p0 (A ++ new) := by
+  refine ⟨?_, ?_, ?_⟩
+  · unfold AgreeOffPrefix
+    rw [List.filter_append]
+    have : new.filter (fun kv => pfx kv.1 != some p0) = [] := by
+      apply List.filter_eq_nil_iff.2
+      intro kv hkv
+      have : pfx kv.1 = some p0 := hnew kv.1 (by simp only [keys, List.mem_map]; exact ⟨kv, hkv, rfl⟩)
+      simp [this]
+    rw [this, List.append_nil]
+  · intro k hk hp; exact absurd hp (hA k hk)
+  · intro k _ _
+    obtain ⟨x, hx, hmx⟩ := mem_markedPrefixes.1 hmark
+    refine mem_markedPrefixes.2 ⟨x, ?_, hmx⟩
+    simp only [keys, List.map_append, List.mem_append]
+    exact Or.inr hx
+
 end Kopf.C04
